@@ -44,7 +44,7 @@ pub fn strategy() -> BoxedStrategy<Case> {
         prop_oneof![8 => Just(0u8), 1 => Just(1u8), 1 => Just(2u8), 1 => Just(3u8), 1 => Just(4u8)],
         run_cfg(),
         prop::option::weighted(0.7, (any::<u16>(), any::<u8>())),
-        prop_oneof![2 => Just(None), 2 => Just(Some(1024u64)), 1 => Just(Some(4096u64))],
+        prop_oneof![4 => Just(None), 4 => Just(Some(1024u64)), 2 => Just(Some(4096u64)), 1 => Just(Some(0u64))],
     )
         .prop_map(|(tree, specials, shape, mut run, fault, block)| {
             // workers in {1,2,64} get extra weight
@@ -252,6 +252,9 @@ pub fn judge(c: &Case, rec: &mut Rec) -> Verdict {
     if c.gitignore > 0 && c.shape == 0 {
         rec.class(format!("gitignore-file-kind={}", ["-", "fifo", "socket", "regular"][c.gitignore as usize % 4]));
     }
+    if c.block == Some(0) {
+        rec.class(format!("block-size=0|{}", if c.run.parblock { "parblock" } else { "parfile" }));
+    }
     let shape = if c.big.is_some() { "big-tree" } else { ["tree", "fifo-source", "socket-source", "empty-dir", "empty-file"][c.shape as usize % 5] };
     let key = format!(
         "{}|w{}|{}|{}|fault={}|{}|specials={}|exit={}",
@@ -454,7 +457,7 @@ impl Check for C07 {
         prop_loop(ctx, rec, "apibig", apibig_strategy(), ctx.share(n / 50), judge_apibig);
         let api = c12::strategy().prop_map(|mut c| {
             if c.sup.is_none() {
-                c.sup = Some(RunCfg { parblock: c.parblock, workers: c.workers, kind: (c.fault_k % 8), seed: c.fault_k as u64 * 7919 + c.workers as u64, change_points: vec![], stall: None });
+                c.sup = Some(RunCfg { parblock: c.parblock, workers: c.workers, kind: (c.fault_k % 8), seed: c.fault_k as u64 * 7919 + c.workers as u64, change_points: vec![], stall: None, cfr: 0 });
             }
             c
         });
@@ -491,6 +494,6 @@ impl Check for C07 {
         }
     }
     fn required_classes(&self, _tier: Tier) -> Vec<String> {
-        ["fifo-source", "socket-source", "empty-dir", "empty-file", "|w64|", "|w1|", "|worker|", "|walker|", "|dispatcher|", "api|parblock", "api|parfile|channel", "big-tree", "plan|cfr-errno38", "plan|clamp-cfr", "apibig|parfile", "apibig|parblock", "gitignore-file-kind=fifo"].iter().map(|s| s.to_string()).collect()
+        ["fifo-source", "socket-source", "empty-dir", "empty-file", "|w64|", "|w1|", "|worker|", "|walker|", "|dispatcher|", "api|parblock", "api|parfile|channel", "big-tree", "plan|cfr-errno38", "plan|clamp-cfr", "apibig|parfile", "apibig|parblock", "gitignore-file-kind=fifo", "block-size=0|parfile", "block-size=0|parblock"].iter().map(|s| s.to_string()).collect()
     }
 }
